@@ -28,3 +28,15 @@ Definition inside_fs (p : bytes) : Prop :=
   no_dotdot p /\ match p with c :: _ => c <> SLASH | [] => True end.
 Definition inside_fsb (p : bytes) : bool :=
   no_dotdotb p && match p with c :: _ => negb (c =? SLASH) | [] => true end.
+
+(* path.Clean restricted to what can occur in an absolute name without ".." segments: drop empty and "." segments *)
+Definition lex_clean (p : bytes) : bytes :=
+  match p with
+  | c :: r => if c =? SLASH
+              then match filter (fun s => nonempty s && negb (is_dot s)) (split_segs r) with
+                   | [] => [SLASH]
+                   | l => join_segs l
+                   end
+              else p
+  | [] => []
+  end.
